@@ -190,12 +190,24 @@ def run_family(chk, tier, files):
             s3 = list(itertools.product(core, core, core))
             depth3 = len(s3)
             seqs += s3
+        # both tiers: every sequence of 3 and 4 calls over the lap-exposing sub-alphabet (lapped seek, crosslap in both roles, fresh and pre-seeked partner): repeated
+        # exposure of ONE decoded block is where the lapout/splice heap overflow repaired by fix 5ce75be lived (depth <= 2 stays inside the buffer); small judged set
+        lapcore = [o for o in ('PS%d' % al.mids[-1], 'XA-', 'XB-', 'XA%d' % al.mids[-1], 'XB%d' % al.mids[-1]) if o in pri or o in al.core()]
+        slap = list(itertools.product(lapcore, repeat=3)) + list(itertools.product(lapcore, repeat=4))
+        jlap = [j for j in jud if j in ('ps@+0', 'pp@+0', 'rs@+0')] or jud[:2]
         # the linear decode itself (no J): positions 0,1,2,... up to the total
         cases = ['%d' % fm.idx]
         index = [((), None)]
         for s in seqs:
             pre = '%d %s J ' % (fm.idx, ' '.join(s)) if s else '%d J ' % fm.idx
             for j in jud:
+                cases.append(pre + j)
+                index.append((s, j))
+        for s in slap:
+            if tier == 'thorough' and len(s) == 3:
+                continue        # already in the depth-3 core product
+            pre = '%d %s J ' % (fm.idx, ' '.join(s))
+            for j in jlap:
                 cases.append(pre + j)
                 index.append((s, j))
         res = vlib.run_cases(exe, cases, ['--files', listfile], tag='c07hist')
